@@ -458,9 +458,25 @@ def gibbs_joint(rec, ctx=None):
         B = rs.randn(m, n)
         y = Gaussian(lambda x, z: A @ x + B @ z, cov=lambda s: 1 / s, name="y", geometry=m)
         J = JointDistribution(*_perm(rec, [y, x, z, s]))(y=yobs)
+    elif shape == "x_l1_l2":    # two data sets with their own noise precisions entering one x-block
+        l1 = Gamma(1.0, 1e-1, name="l1")
+        l2 = Gamma(2.0, 3e-1, name="l2")
+        x = Gaussian(np.zeros(n), 1.0, name="x")
+        m2 = m + rec["zseed"] % 2
+        A2 = rs.randn(m2, n)
+        y2obs = rs.randn(m2)
+        y1 = Gaussian(mk_model()(x), cov=lambda l1: 1 / l1, name="y1")
+        y2 = Gaussian(LinearModel(A2)(x), cov=lambda l2: 1 / l2, name="y2")
+        order = _perm(rec, [y1, y2, x, l1, l2])
+        J = JointDistribution(*order)(y1=yobs, y2=y2obs)
+        return J, {"A": A, "y": yobs, "A2": A2, "y2": y2obs, "probes": probes,
+                   "lik_order": [d_.name for d_ in order if d_.name in ("y1", "y2")]}
     else:
         raise ValueError(shape)
-    return J, {"A": A, "y": yobs, "probes": probes}
+    out = {"A": A, "y": yobs, "probes": probes}
+    if shape == "x_z_s":
+        out["B"] = B
+    return J, out
 
 
 # --------------------------------------------------------------------------- Gibbs strategies
@@ -474,6 +490,7 @@ GIBBS_SHAPES = {
     "x_d_a": {"x": ["LinearRTO", "MH"], "d": ["Conjugate", "Conjugate", "MH"], "a": ["MH"]},
     "x_s_w": {"x": ["LinearRTO", "MH"], "s": ["Conjugate", "MH"], "w": ["Direct", "Direct", "MH"]},
     "x_d_reg": {"x": ["RegularizedLinearRTO"], "d": ["Conjugate"]},
+    "x_l1_l2": {"x": ["LinearRTO", "LinearRTO", "MH"], "l1": ["Conjugate", "MH"], "l2": ["Conjugate", "Conjugate", "MH"]},
 }
 LEGACY_GIBBS_SHAPES = {
     "x_s": {"x": ["LinearRTO", "CWMH", "MH"], "s": ["Conjugate", "MH"]},
@@ -509,7 +526,7 @@ def gen_gibbs_scenario(r, legacy=False):
         elif kind == "RegularizedLinearRTO":
             kn["maxit"] = r.choice([5, 30])
             kn["stepsize"] = r.choice([0.005, 0.02])
-        if kind in ("MH", "CWMH", "MALA", "ULA", "NUTS", "PCN") and b in ("s", "d", "a"):
+        if kind in ("MH", "CWMH", "MALA", "ULA", "NUTS", "PCN") and b in ("s", "d", "a", "l1", "l2"):
             kn["initial_point"] = [round(r.uniform(0.5, 2.0), 3)]
         strat[b] = {"kind": kind, "knobs": kn}
     steps = {b: r.choice([1, 1, 2, 3]) for b in strat} if not legacy else None
